@@ -84,7 +84,9 @@ def gen_list(rng):
     for _ in range(n):
         e = gen_expr(rng)
         if rng.chance(1, 5):
-            e = f"{rng.choice(['name', 'w', 'x', 'r#in'])} = {e}"
+            # every spacing of the `=`: glued to an expression that starts with a punctuation character it is a *joint* `=`
+            # (`x=-1`, `w=&a`, `name=|p, q| ..`) and still an alias (added after seed C16-j)
+            e = f"{rng.choice(['name', 'w', 'x', 'r#in'])}{rng.choice([' = ', '=', ' =', '= '])}{e}"
         parts.append(e)
     return ", ".join(parts) + ("," if rng.chance(1, 4) else "")
 
